@@ -14,10 +14,11 @@ RULE = ("one position (generator of C03) encoded as a single airborne (TC 9-18, 
         "from the same box; oracle: position_with_ref / airborne_position_with_ref / surface_position_with_ref within one "
         "quantisation step of the encoded position (lon mod 360), and equal (1e-9) for both references. non-trivial = |f| or |g| >= 0.49, "
         "reference across the equator / lon 0 / antimeridian from the target, or NL-i <= 1")
-ASSUMPTIONS = ["reference strictly inside the half-zone box (|f|,|g| <= 0.4999)", "reference encoder ref/cpr.py follows DO-260B A.1.7.3",
+ASSUMPTIONS = ["reference strictly inside the half-zone box (|f|,|g| <= 0.5 - 5e-10)", "reference encoder ref/cpr.py follows DO-260B A.1.7.3",
                "cases whose encoded latitude lies within 1e-9 deg of an NL transition are counted, not judged"]
 
-FRAC = st.one_of(st.sampled_from([0.4999, -0.4999, 0.49, -0.49, 0.0]), gen.ufloat(-0.4999, 0.4999), gen.ufloat(-0.4999, 0.4999))
+EDGE = 0.5 - 5e-10  # still strictly inside the half-zone box; float error of ref/d is ~1e-14 zone
+FRAC = st.one_of(st.sampled_from([0.4999, -0.4999, 0.49, -0.49, 0.0, EDGE, -EDGE]), gen.ufloat(-0.4999, 0.4999), gen.ufloat(-0.4999, 0.4999))
 
 
 @st.composite
@@ -64,6 +65,10 @@ def chk_ref(case, note):
     dstep = e["dlon_step"] * (1 if not surface else 1)  # surface: 19-bit bins of a 360/ni zone == 17-bit bins of 90/ni
     for name, fn in fns:
         outs = []
+        if b & 1:  # the identical string decoded earlier against a reference some zones away (another aircraft position estimate, a second receiver)
+            base = 90.0 if surface else 360.0
+            far = max(-90.0, min(90.0, r1[0] + (3 if r1[0] < 0 else -3) * base / (60 - i)))
+            call(fn, msg, far, cg.wrap_lon(r1[1] + 40.0))
         for (rl, ro) in (r1, r2, r3):
             r = call(fn, msg, rl, ro)
             tag = "%s(%s, %r, %r)" % (name, msg, rl, ro)
